@@ -108,7 +108,10 @@ HARNESSES = [
 
 ]
 
-VERUS_UNITS = []
+VERUS_UNITS = [
+    VU("V-transfer", ["C03", "C05", "C07", "C08"], ["transfer"]),
+    VU("V-inf-leaf", ["C04", "C06", "C07", "C19"], ["undo_bytes", "num_extra_bits_for_distance_code"]),
+]
 
 # what each property cannot get from this family here (goes verbatim into the evidence)
 
